@@ -12,6 +12,8 @@
 #include <common/VerifTrace.h>
 
 #include <set>
+#include <unordered_map>
+#include <algorithm>
 #include <sstream>
 #include <string>
 #include <unordered_set>
@@ -44,6 +46,30 @@ inline std::string termJson(Logic const & logic, PTRef root) {
         }
         for (int i = 0; i < t.size(); ++i) { todo.push_back(t[i]); }
     }
+    // the text is a tree: a term that is small as a DAG can be astronomically large as text (g(t,t) nested 40 times);
+    // such a term is logged without its text ("big"), the run itself must not be slowed down by its own trace
+    std::unordered_map<uint32_t, std::size_t> treeSize;
+    std::size_t const cap = 20000;
+    {
+        std::vector<std::pair<PTRef, bool>> stack{{root, false}};
+        while (not stack.empty()) {
+            auto [tr, expanded] = stack.back();
+            stack.pop_back();
+            if (treeSize.find(tr.x) != treeSize.end()) { continue; }
+            Pterm const & t = logic.getPterm(tr);
+            if (not expanded) {
+                stack.push_back({tr, true});
+                for (int i = 0; i < t.size(); ++i) {
+                    if (treeSize.find(t[i].x) == treeSize.end()) { stack.push_back({t[i], false}); }
+                }
+            } else {
+                std::size_t sz = 1;
+                for (int i = 0; i < t.size(); ++i) { sz = std::min(cap + 1, sz + treeSize.at(t[i].x)); }
+                treeSize[tr.x] = sz;
+            }
+        }
+    }
+    if (treeSize.at(root.x) > cap) { return "{\"t\":\"\",\"big\":true,\"d\":[]}"; }
     std::ostringstream os;
     os << "{\"t\":" << quote(logic.termToSMT2String(root)) << ",\"d\":[";
     bool first = true;
